@@ -288,7 +288,16 @@ pub fn run(ctx: &mut Ctx) {
                 correspondence(ctx, "C11", &[Op::Eval(setup.to_string()), Op::Compile(src.clone())]);
                 let mut x = fresh();
                 let _ = x.eval(setup);
-                let r = apply(&mut x, &Op::Compile(src.clone()));
+                // a third of the sources are compiled from a file (`compile_file`, what a host does with a script): the same
+                // entry point with another way in — nothing runs until `run`
+                let from_file = ctx.rng.chance(33);
+                let r = if from_file {
+                    ctx.tag("compile:from-file");
+                    let dir = crate::lib_files(&ctx.scratch);
+                    let path = format!("{}/inert-{}.xeh", dir, ctx.rng.below(1_000_000));
+                    std::fs::write(&path, &src).unwrap();
+                    match crate::guarded(|| x.compile_file(Xstr::from(path.as_str()))) { None => "panic".to_string(), Some(Ok(())) => "ok".to_string(), Some(Err(e)) => format!("rej {}", canon::err(&e)) }
+                } else { apply(&mut x, &Op::Compile(src.clone())) };
                 let mut y = fresh();
                 let _ = y.eval(setup);
                 let hlen = y.verif_dump().heap.len();
